@@ -2802,6 +2802,14 @@ TPM_RESULT TPM_SymmetricKeyData_Encrypt(unsigned char **encrypt_data,   /* outpu
 	(TPM_SYMMETRIC_KEY_DATA *)tpm_symmetric_key_token;
 
     printf(" TPM_SymmetricKeyData_Encrypt: Length %u\n", decrypt_length);
+    /* a key that TPM_SymmetricKeyData_Init() invalidated (the contextKey and delegateKey after
+       TPM_OwnerClear / TPM_ForceClear) has an all-zero AES key schedule: never hand it to OpenSSL */
+    if (rc == 0) {
+	if (!tpm_symmetric_key_data->valid) {
+	    printf("TPM_SymmetricKeyData_Encrypt: Error, key is not valid\n");
+	    rc = TPM_ENCRYPT_ERROR;
+	}
+    }
     decrypt_data_pad = NULL;    /* freed @1 */
     if (rc == 0) {
         /* calculate the pad length and padded data length */
@@ -2862,6 +2870,14 @@ TPM_RESULT TPM_SymmetricKeyData_Decrypt(unsigned char **decrypt_data,   /* outpu
 	(TPM_SYMMETRIC_KEY_DATA *)tpm_symmetric_key_token;
     
     printf(" TPM_SymmetricKeyData_Decrypt: Length %u\n", encrypt_length);
+    /* a key that TPM_SymmetricKeyData_Init() invalidated (the contextKey and delegateKey after
+       TPM_OwnerClear / TPM_ForceClear) has an all-zero AES key schedule: never hand it to OpenSSL */
+    if (rc == 0) {
+	if (!tpm_symmetric_key_data->valid) {
+	    printf("TPM_SymmetricKeyData_Decrypt: Error, key is not valid\n");
+	    rc = TPM_DECRYPT_ERROR;
+	}
+    }
     /* sanity check encrypted length */
     if (rc == 0) {
         if (encrypt_length < TPM_AES_BLOCK_SIZE) {
